@@ -77,7 +77,22 @@ def run_mst(case):
             events.append(ret("prim", r, False, lambda a: ids[a]))
         except Exception as ex:  # noqa: BLE001
             events.append({"e": "raise", "solver": "prim", "what": type(ex).__name__})
-    return {"main": {"n": n, "edges": [list(e) for e in case["edges"]], "events": events, "input": case}, "uf": uf_traces}
+    # call history on ONE adjacency dict: its neighbour lists are edited in place (same keys) and prim is asked again
+    more = []
+    for k, E2 in enumerate(case.get("edits", [])):
+        new = {lb: [] for lb in labs}
+        for u, v, w in E2:
+            new[labs[u]].append((labs[v], w / scale))
+            if u != v:
+                new[labs[v]].append((labs[u], w / scale))
+        for lb in g:
+            g[lb][:] = new[lb]
+        try:
+            ev2 = [ret("prim", mst.prim(g), False, lambda a: ids[a])]
+        except Exception as ex:  # noqa: BLE001
+            ev2 = [{"e": "raise", "solver": "prim", "what": type(ex).__name__}]
+        more.append({"n": n, "edges": [list(e) for e in E2], "events": ev2, "input": {"hist": case, "index": k}})
+    return {"main": {"n": n, "edges": [list(e) for e in case["edges"]], "events": events, "input": case}, "uf": uf_traces, "more": more}
 
 
 def gen(rng, nmax=9):
@@ -98,5 +113,21 @@ def gen(rng, nmax=9):
         for a, b in zip(perm, perm[1:]):
             edges.append([a, b, rng.randint(0, 9)])
     rng.shuffle(edges)
-    return {"n": n, "edges": edges, "wscale": rng.choice([1, 1, 4]), "labels": rng.choice(["int", "str", "tuple", "float", "odd", "big"]),
+    case = {"n": n, "edges": edges, "wscale": rng.choice([1, 1, 4]), "labels": rng.choice(["int", "str", "tuple", "float", "odd", "big"]),
             "starts": [None, rng.randrange(n), rng.randrange(n)]}
+    if rng.random() < 0.3 and edges:
+        edits = []
+        cur = [list(e) for e in edges]
+        for _ in range(rng.randint(1, 2)):
+            cur = [list(e) for e in cur]
+            for _ in range(rng.randint(1, 3)):
+                r = rng.random()
+                if r < 0.5 and cur:
+                    cur[rng.randrange(len(cur))][2] = rng.randint(0, 9)         # reprice an edge
+                elif r < 0.75 and len(cur) > 1:
+                    cur.pop(rng.randrange(len(cur)))                              # drop an edge
+                else:
+                    cur.append([rng.randrange(n), rng.randrange(n), rng.randint(0, 9)])
+            edits.append(cur)
+        case["edits"] = edits
+    return case
